@@ -135,6 +135,8 @@ func (w ACLWorld) Generate(rng *rand.Rand, tier string, runIdx uint64) simkit.Pl
 			if simkit.Chance(rng, 15) {
 				s.List = []string{simkit.Pick(rng, []string{"dc1", "dc2"})}
 			}
+			// a read-modify-write through the real endpoint: the client sends back the object it read, hash included
+			s.Flag2 = simkit.Chance(rng, 35)
 			return s
 		case 1:
 			return Step{Op: "acl.policy.delete", ID: PolicyUUID(ids.retire("p", n4()))}
@@ -241,21 +243,22 @@ func (w ACLWorld) Execute(t *testing.T, pl simkit.Plan, r *simkit.Run) (v *simki
 }
 
 type aclWorldState struct {
-	w         ACLWorld
-	r         *simkit.Run
-	C         *Cluster
-	client    *consul.ACLResolver
-	defAllow  bool
-	ttl       time.Duration
-	down      string
-	rpcFail   int
-	rpcErrs   int // RPC failures during the current resolution
-	rpcMu     sync.Mutex
-	rpcFailed int      // failed RPCs not yet added to the run's counters
-	shadow    *Replica // applies the same log and is never handed to a resolver: the reference reads it
-	shadowAt  int
-	lastACL   time.Time
-	lastFault time.Time
+	adminReady bool
+	w          ACLWorld
+	r          *simkit.Run
+	C          *Cluster
+	client     *consul.ACLResolver
+	defAllow   bool
+	ttl        time.Duration
+	down       string
+	rpcFail    int
+	rpcErrs    int // RPC failures during the current resolution
+	rpcMu      sync.Mutex
+	rpcFailed  int      // failed RPCs not yet added to the run's counters
+	shadow     *Replica // applies the same log and is never handed to a resolver: the reference reads it
+	shadowAt   int
+	lastACL    time.Time
+	lastFault  time.Time
 }
 
 // ---- reference semantics
@@ -1154,6 +1157,12 @@ func (w ACLWorld) execute(p *Plan, r *simkit.Run) *simkit.Violation {
 		default:
 			r.Sig(st.Op)
 			n := len(s.C.Log)
+			if st.Op == "acl.policy.set" && st.Flag2 && s.policyRMW(st) {
+				if len(s.C.Log) > n {
+					s.lastACL = time.Now()
+				}
+				continue
+			}
 			s.C.Do(st)
 			if s.C.Fatal != nil {
 				return &simkit.Violation{Property: w.Prop, Class: "panic", Invariant: "apply-does-not-panic", Step: i, Culprit: st.Op, Detail: s.C.Fatal.Error()}
@@ -1165,4 +1174,31 @@ func (w ACLWorld) execute(p *Plan, r *simkit.Run) *simkit.Violation {
 	}
 	r.Nontrivial = len(s.C.Log) >= 3
 	return nil
+}
+
+const aclAdminSecret = "5ec4e700-0000-4000-8000-0000000000ad"
+
+// policyRMW updates a stored policy the way `consul acl policy update` does: read the policy, change it,
+// send the whole object back to the real ACL.PolicySet endpoint. False if there is nothing to update
+// (the caller then writes the policy as a new one).
+func (s *aclWorldState) policyRMW(st Step) bool {
+	_, cur, err := s.C.L.State().ACLPolicyGetByID(nil, st.ID, nil)
+	if err != nil || cur == nil {
+		return false
+	}
+	if !s.adminReady {
+		// an operator token that may write ACLs (its policy says so explicitly)
+		s.C.Do(Step{Op: "acl.policy.set", ID: PolicyUUID(99), Name: "verif-admin", Text: `acl = "write"`})
+		s.C.Do(Step{Op: "acl.token.set", ID: TokenUUID(99), Text: aclAdminSecret, List: []string{PolicyUUID(99)}})
+		s.adminReady = true
+	}
+	pol := *cur // Hash, indexes and all, as a client that read it would hold it
+	pol.Rules, pol.Name, pol.Datacenters = st.Text, st.Name, st.List
+	args := &structs.ACLPolicySetRequest{Datacenter: "dc1", Policy: pol, WriteRequest: structs.WriteRequest{Token: aclAdminSecret}}
+	var reply structs.ACLPolicy
+	var rerr error
+	s.C.Main(func() { rerr = consul.VerifACLPolicySet(s.C.Shell, args, &reply) })
+	s.r.Eventf("acl.policy.set through the endpoint (read-modify-write) %s -> err=%v", st.Name, rerr != nil)
+	s.r.Hit("probe.policy-read-modify-write")
+	return true
 }
